@@ -45,7 +45,21 @@ func TestVerifV2Trace(t *testing.T) {
 	}
 }
 
-func v2Q(thr float64) int { return computeQ(thr) }
+// v2MinRun: the minimum run length the statement of C01 attaches to a threshold, floor(t / (1 - t)), at least 1,
+// 10 at threshold 1.0 -- computed in integer arithmetic, independently of the code's computeQ.
+func v2MinRun(thr float64) int {
+	pm := int(thr*100000 + 0.5)
+	if pm >= 100000 {
+		return 10
+	}
+	q := pm / (100000 - pm)
+	if q < 1 {
+		q = 1
+	}
+	return q
+}
+
+func v2Q(thr float64) int { return v2MinRun(thr) }
 
 // ---------------------------------------------------------------------------------------------
 // C01: copies of corpus documents planted between blocks of out-of-vocabulary text
